@@ -10,6 +10,7 @@ from .. import ref
 from ..core import fhex
 
 name = 'cat'
+RAISE_ORACLE = 'I16.raise'
 ALTS = ['car', 'sm', 'train']
 
 
